@@ -18,6 +18,7 @@ import ast
 from ..astutil import dotted, src, walk_local, local_assignments, calls
 from ..dispatch import dispatcher, dead_arms, ops_handled, operand_slots, exact_arm
 from ..must import analyze
+from ..inline import bind_args, callable_body
 from ..report import AnalysisError
 from .. import tags
 
@@ -53,6 +54,48 @@ def evaluator_builders(prog):
     if len(rec) != 1 or len(it) != 1:
         raise AnalysisError(f"evaluator builders not identified (recursive={[c[0].name for c in rec]}, iterative={[c[0].name for c in it]})")
     return rec[0], it[0]
+
+
+def _helper_map_params(h, call_sites, builders) -> set:
+    """Parameters of helper ``h`` to which every builder call site passes the builder's own name->position map."""
+    out = None
+    for c in call_sites:
+        b = [bb for bb in builders if any(c is y for y in ast.walk(bb.node))][0]
+        mapname = b.node.args.args[1].arg
+        here = {p for p, a in bind_args(h.node, c).items() if src(a) == mapname}
+        out = here if out is None else out & here
+    return out or set()
+
+
+def _arm_closures(body):
+    """Closures an operator arm hands out: lambdas, or local functions (single return) that are returned / pushed."""
+    lams = [n for st in body for n in ast.walk(st) if isinstance(n, ast.Lambda)]
+    defs = [st for st in body if isinstance(st, ast.FunctionDef)]
+    used = {n.id for st in body if not isinstance(st, ast.FunctionDef) for n in ast.walk(st) if isinstance(n, ast.Name)}
+    return lams + [f for f in defs if f.name in used and callable_body(f) is not None]
+
+
+def _binary_op_arms(prog, fi, ba, subject):
+    """({operator literal: Arm}, via): the operator dispatch of the BinaryOp arm, written in place (via None) or in a
+    closure factory called from the arm with <subject>.op (via = the factory's parameter -> argument binding)."""
+    oph = ops_handled(ba.body)
+    if oph:
+        return oph, None
+    env = arm_env(ba)
+    for st in ba.body:
+        for c in ast.walk(st):
+            if isinstance(c, ast.Call) and isinstance(c.func, ast.Name):
+                h = prog.functions.get(f"{fi.module.name}:{c.func.id}")
+                if h is None or h is fi:
+                    continue
+                binding = bind_args(h.node, c)
+                opp = [p for p, a in binding.items() if src(a) == f"{subject}.op" or (isinstance(a, ast.Name) and src(env.get(a.id)) == f"{subject}.op")]
+                if not opp:
+                    continue
+                arms = ops_handled(h.node.body, suffix=opp[0])
+                if arms:
+                    return arms, binding
+    return {}, "?"
 
 
 def arm_env(arm):
@@ -179,25 +222,32 @@ def check(prog, rep):
             raise AnalysisError(f"{fi.name}: BinaryOp/UnaryOp arms not found")
         env = arm_env(ba)
         roles = _child_roles(ba, env, d.subject, fi.name, label)
-        oph = ops_handled(ba.body)
+        oph, via = _binary_op_arms(prog, fi, ba, d.subject)
         for op in B:
             a = oph.get(op)
             if a is None:
+                if via == "?":
+                    rep.undecided(f"{fi.name}: the BinaryOp arm does not dispatch on the operator in a recognised way")
+                    break
                 rep.ob("R01.3", fi.name, False, f"no arm for binary operator {op!r}", loc=f"{fi.module.rel}:{ba.lineno}", detail=f"binop:{op}")
                 continue
-            lams = [n for st in a.body for n in ast.walk(st) if isinstance(n, ast.Lambda)]
-            if len(lams) != 1:
-                raise AnalysisError(f"{fi.name}: arm for {op!r} does not build exactly one closure")
-            lam = lams[0]
-            body = lam.body
-            defaults = dict(zip([x.arg for x in lam.args.args][::-1], lam.args.defaults[::-1]))
-            x = lam.args.args[0].arg
+            closures = _arm_closures(a.body)
+            if len(closures) != 1:
+                rep.undecided(f"{fi.name}: arm for {op!r} does not build exactly one closure")
+                continue
+            lam = closures[0]
+            body, argnames, defaults = callable_body(lam)
+            x = argnames[0]
 
             def role(call):
                 if not (isinstance(call, ast.Call) and isinstance(call.func, ast.Name) and len(call.args) == 1 and src(call.args[0]) == x):
                     return None
                 o = defaults.get(call.func.id)
                 nm = o.id if isinstance(o, ast.Name) else call.func.id
+                if via is not None and via != "?":
+                    # the closure lives in a factory: its free names are the factory's parameters, bound at the call
+                    o2 = via.get(nm)
+                    nm = o2.id if isinstance(o2, ast.Name) else nm
                 return roles.get(nm)
 
             ok = isinstance(body, ast.BinOp) and isinstance(body.op, PY_OP[op]) and role(body.left) == "left" and role(body.right) == "right"
@@ -287,6 +337,12 @@ def check(prog, rep):
                         if not cands or not all(_from_map(v, b.node.args.args[1].arg) for v in cands):
                             good = False
                     rep.ob("R01.5", h.name, good, f"x[{src(idx)}]: the index is the position array its callers looked up in the name->position map" if good else f"x[{src(idx)}]: a caller passes an index that was not looked up in the name->position map", loc=f"{h.module.rel}:{lam.lineno}", detail=f"helper-subscript:{src(idx)}")
+                elif isinstance(o, ast.Name) and o.id in hassigns and _helper_map_params(h, called_by_builders, builders):
+                    # the helper receives the name->position map itself and looks the position up locally
+                    mps = _helper_map_params(h, called_by_builders, builders)
+                    cands = [v for v in hassigns[o.id] if isinstance(v, ast.AST)]
+                    good = bool(cands) and all(any(_from_map(v, mp) for mp in mps) for v in cands)
+                    rep.ob("R01.5", h.name, good, f"x[{src(idx)}] uses a position looked up in {sorted(mps)[0]} (the callers' name->position map) by variable name" if good else f"x[{src(idx)}] is not indexed through the name->position map handed in by the builders (origin: {src(cands[-1])[:50] if cands else 'unknown'}): it would ignore the caller's variable order", loc=f"{h.module.rel}:{lam.lineno}", detail=f"helper-subscript:{src(idx)}")
                 else:
                     rep.ob("R01.5", h.name, False,
                            f"x[{src(idx)}] with {src(idx)} = `{src(o)[:50] if o is not None else '?'}`: the index is DERIVED from the looked-up positions (end points / min / max / slice), not the position array itself; equal end points do not imply equal order, so for a variable list that keeps the vector's variables contiguous but permuted the closure reads the wrong entries",
@@ -344,7 +400,7 @@ def check(prog, rep):
     rep.expect_min("R01.1", 36)
     rep.expect_min("R01.2", 18)
     rep.expect_min("R01.3", 50)
-    rep.expect_min("R01.5", 14)
+    rep.expect_min("R01.5", 10)  # 14 on the confirmed tree; duplicated gather closures may legitimately be merged into a helper
     rep.expect_min("R01.7", 20)
     rep.explanation = (
         "All arms of both evaluator builders at once: coverage of the 18 concrete Expression kinds, definite assignment "
